@@ -516,6 +516,16 @@ func (st *ccState) oracleLiveness(v *vio) {
 					if st.acceptableIn(c, c.invT, tx) == nil {
 						v.add("T3-error", "call %d: returned a message at the close instant t=%v without an acceptable delivery", c.id, tx)
 					}
+				} else if !p.IsNoResponse(c.err) && !p.IsInUse(c.err) && !st.hadWriteFailure(c) {
+					// "with the no-response error when the client is closed": demanded of a call that
+					// provably sat in its wait when Close was called (transmitted, timer and context
+					// strictly later, nothing accepted); at a try boundary or context end falling on
+					// the close instant other errors are legitimate tie outcomes.
+					for _, s := range st.provenStretches(c) {
+						if s.fromSeq < firstClose.invSeq && s.toSeq == firstClose.invSeq && tx < s.toT {
+							v.add("T3-error-kind", "call %d was waiting for a response when the client was closed at t=%v; it returned err=%v, want the no-response error", c.id, tx, c.err)
+						}
+					}
 				}
 			}
 			if c.invSeq > firstClose.retSeq && firstClose.returned {
